@@ -280,19 +280,17 @@ func (k *Keys) ReadKey() (key rune, isAbort bool) {
 		key = k.macroKeys[0]
 		k.macroKeys = k.macroKeys[1:]
 
-	case len(k.buf) > 0:
-		// Keys that were read along with the command's own.
-		var size int
-		key, size = utf8.DecodeRune(k.buf)
-		k.buf = k.buf[size:]
-
-	case k.waiting:
+	case k.waiting && len(k.buf) == 0:
 		buf := <-k.keysOnce
-		key = k.firstKey(buf)
+		key = k.firstKey(k.convertMeta(buf))
+
 	default:
-		// Read until we get a key (a read might only hold a cursor position
-		// report), and consider a closed or failing input as an abort.
-		var buf []byte
+		// Start with the keys that were read along with the command's own, and read
+		// until we have a complete character (a read might only hold a cursor position
+		// report, or the first bytes of the character). A closed or failing input is
+		// considered as an abort.
+		buf := k.buf
+		k.buf = nil
 
 		for len(buf) == 0 || !utf8.FullRune(buf) {
 			read, err := k.readInputFiltered()
@@ -300,7 +298,7 @@ func (k *Keys) ReadKey() (key rune, isAbort bool) {
 				return 0, true
 			}
 
-			buf = append(buf, read...)
+			buf = append(buf, k.convertMeta(read)...)
 		}
 
 		key = k.firstKey(buf)
@@ -317,7 +315,7 @@ func (k *Keys) ReadKey() (key rune, isAbort bool) {
 // firstKey returns the first key of a read, and keeps the other ones for later.
 func (k *Keys) firstKey(read []byte) rune {
 	key, size := utf8.DecodeRune(read)
-	k.buf = append(k.buf, k.convertMeta(read[size:])...)
+	k.buf = append(k.buf, read[size:]...)
 
 	return key
 }
